@@ -54,7 +54,7 @@ TYPE_KEYWORDS = {'instance': 'instance of', 'treat': 'treat as', 'castable': 'ca
 
 def level(node, tbl):
     t = node[0]
-    if t in ('num', 'name', 'var', 'str', 'lit', 'pname', 'ulookup', 'dot', 'call', 'paren', 'root', 'parent'):
+    if t in ('num', 'name', 'var', 'str', 'lit', 'kind', 'pname', 'ulookup', 'dot', 'call', 'paren', 'root', 'parent'):
         return ATOM_LEVEL
     if t == 'un':
         return tbl['neg'][0]
@@ -122,7 +122,7 @@ def gen_atom(rng, version, want='any'):
         # a prefixed name whose prefix is spelled like an operator keyword is still a name test
         return ['pname', rng.choice(KEYWORD_PREFIXES), rng.choice(['a', 'b', 'div', 'x'])]
     if want == 'step':
-        return rng.choice([['name', rng.choice('abc')], ['name', rng.choice('abc')], ['dot']])
+        return rng.choice([['name', rng.choice('abc')], ['name', rng.choice('abc')], ['dot'], ['kind', rng.choice(['node', 'text'])]])
     if rng.random() < 0.08:
         return list(rng.choice(LITERALS_ANY + (LITERALS_2 if version != '1.0' else [])))
     if version == '3.1' and rng.random() < 0.06:
@@ -205,6 +205,8 @@ def tokens(node, tbl, version, rng=None, redundant=0.0):
         return ["'%s'" % node[1]]
     if t == 'lit':
         return [node[1]]
+    if t == 'kind':
+        return [node[1], '(', ')']
     if t == 'pname':
         return ['%s:%s' % (node[1], node[2])]
     if t == 'dot':
@@ -243,6 +245,8 @@ def expected_tree(node):
         return "('%s')" % node[1]
     if t == 'lit':
         return node[2]
+    if t == 'kind':
+        return '(%s)' % node[1]
     if t == 'pname':
         return '(: (%s) (%s))' % (node[1], node[2])
     if t == 'dot':
